@@ -94,7 +94,9 @@ def gen_project(rng, variant=0):
         "install(man_page('doc/p13.1'))",
         "pkg_config('p13', version='1.2.3', includes=[inc], libs=[liba, libb], requires=['zlib >= 1.0'], "
         "conflicts=[('oldp13', '>=1,<2,!=1.5,!=1.6'), ('otherp13', '!=3,!=4,!=5,>0.5'), "
-        "('tiep13', '>=2.0,!=2.0'), ('tie2p13', '<=1.0,!=1.0,>=0.5,!=0.5')])",          # specifiers with EQUAL versions too
+        "('tiep13', '>=2.0,!=2.0'), ('tie2p13', '<=1.0,!=1.0,>=0.5,!=0.5'), "
+        "('spellp13', '>=1.0,>=1.00,>=1.000,<=3,<=3.0'), ('eqp13', '==2.0,==2.00,==2')], "          # EQUAL versions, also respelled
+        "requires_private=[('reqp13', '>=4.0,>=4.00,>=4')])",
         "pkg_config('p13-static', version='1.2.3', includes=[inc], libs=[libs], auto_fill=False)",
         "t1 = executable('t1', files=['t1.c'], libs=[liba])",
         "t2 = executable('t2', files=['t2.c'], libs=[libb])",
